@@ -11,6 +11,8 @@ import (
 	"encoding/json"
 	"fmt"
 	"hash/fnv"
+	"io"
+	"log"
 	"os"
 	"runtime"
 	"sort"
@@ -57,6 +59,10 @@ type X struct {
 	States     map[uint64]struct{}
 	Sample     map[string]any
 	Nontrivial bool
+
+	// PostCheck runs after the bubble has ended (real time, real goroutines): used
+	// for checkers that must not run on the fake clock (porcupine).
+	PostCheck func()
 
 	S        *simrt.Sched
 	dead     bool // scheduler reported deadlock / no-progress; run is over
@@ -160,6 +166,7 @@ const microIdleBudget = 6 * time.Hour // virtual
 // schedErr is called when the scheduler reports deadlock / no-progress.
 func (x *X) schedErr(e *simrt.SchedError, onErr func(*simrt.SchedError)) {
 	x.dead = true
+	x.Probe("sched-error-" + e.Kind)
 	x.Logf("SCHED-ERROR %s: %s", e.Kind, e.Detail)
 	if onErr != nil {
 		onErr(e)
@@ -183,8 +190,12 @@ func (x *X) Do(name string, fn func(), onErr func(*simrt.SchedError)) bool {
 	if x.dead {
 		return false
 	}
-	x.S.Spawn(name, fn)
-	return x.RunTasks(onErr)
+	t := x.S.Spawn(name, fn)
+	if e := x.S.Run(t.Done, time.Time{}, false, microIdleBudget); e != nil {
+		x.schedErr(e, onErr)
+		return false
+	}
+	return true
 }
 
 // Advance lets virtual time pass by d while scheduling whatever becomes enabled.
@@ -252,6 +263,7 @@ func silenceLogs() {
 			os.Stdout = f
 		}
 		logging.Init(config.LoggingConfig{Level: "fatal", Format: "json"})
+		log.SetOutput(io.Discard) // net/http and httputil log through the standard logger
 	})
 }
 
@@ -280,6 +292,11 @@ func execRun(t *testing.T, sc *Scenario, x *X) (out runOutcome) {
 		}()
 		sc.Run(x)
 	})
+	if x.PostCheck != nil {
+		pc := x.PostCheck
+		x.PostCheck = nil
+		pc()
+	}
 	return out
 }
 
@@ -317,6 +334,7 @@ type FoundViolation struct {
 	OrigLen    int    `json:"orig_choices"`
 	MinRuns    int    `json:"minimise_runs"`
 	Count      int    `json:"count"` // runs of this worker that showed the fingerprint
+	Trace      choice.Trace `json:"trace,omitempty"` // un-minimised choices of the first occurrence
 }
 
 type Result struct {
@@ -589,9 +607,51 @@ func TestSim(t *testing.T) {
 	switch job.Mode {
 	case "replay":
 		doReplay(t, &job)
+	case "minimise":
+		doMinimise(t, &job)
 	default:
 		doExplore(t, &job)
 	}
+}
+
+// doMinimise shrinks the trace in job.ReplayFile (a raw replay file: choices
+// and identification only) and rewrites the file with the minimised trace,
+// event log and schedule.
+func doMinimise(t *testing.T, job *Job) {
+	data, err := os.ReadFile(job.ReplayFile)
+	if err != nil {
+		t.Fatalf("read replay: %v", err)
+	}
+	var rf ReplayFile
+	if err := json.Unmarshal(data, &rf); err != nil {
+		t.Fatalf("parse replay: %v", err)
+	}
+	sc := scenarios[rf.Scenario]
+	if sc == nil {
+		t.Fatalf("unknown scenario %q", rf.Scenario)
+	}
+	job.Property, job.Tier, job.Seed = rf.Property, rf.Tier, rf.BaseSeed
+	maxWall := 30 * time.Second
+	if job.WallS > 0 {
+		maxWall = time.Duration(job.WallS * float64(time.Second))
+	}
+	min, runs := minimise(t, sc, job, rf.Choices, rf.Property, rf.Fingerprint, 20000, maxWall)
+	fv := &FoundViolation{Violation: Violation{rf.Property, rf.Fingerprint, rf.Message}, Scenario: rf.Scenario, Index: rf.Index, RunSeed: rf.RunSeed, ReplayPath: job.ReplayFile}
+	job.ReplayDir = filepathDir(job.ReplayFile)
+	if err := writeReplay(t, sc, job, fv, min, rf.Choices.Len()); err != nil {
+		t.Fatalf("write replay: %v", err)
+	}
+	b, _ := json.Marshal(map[string]any{"minimise_runs": runs, "choices": min.Len(), "orig_choices": rf.Choices.Len()})
+	if err := os.WriteFile(job.Out, b, 0o644); err != nil {
+		t.Fatalf("write: %v", err)
+	}
+}
+
+func filepathDir(p string) string {
+	if i := strings.LastIndex(p, "/"); i >= 0 {
+		return p[:i]
+	}
+	return "."
 }
 
 func doReplay(t *testing.T, job *Job) {
@@ -656,10 +716,20 @@ outer:
 			runSeed := choice.Mix(job.Seed, sr.Name, i)
 			x := newX(sc.Name, choice.New(runSeed))
 			x.Prop, x.Tier, x.Seed, x.Index = job.Property, job.Tier, runSeed, i
+			x.KeepLog = os.Getenv("VSIM_DEBUG") == "2"
 			out := execRun(t, sc, x)
+			if x.KeepLog {
+				fmt.Fprintf(os.Stderr, "---- %s#%d\n%s\n", sr.Name, i, strings.Join(x.Log, "\n"))
+				if x.S != nil {
+					fmt.Fprintf(os.Stderr, "%s\n", strings.Join(x.S.Trace, "\n"))
+				}
+			}
 			res.Runs++
 			res.RunsByScen[sr.Name]++
 			res.SimTimeNs += int64(x.SimTime)
+			if os.Getenv("VSIM_DEBUG") != "" {
+				fmt.Fprintf(os.Stderr, "run %s#%d sim=%v draws=%d events=%d viol=%d\n", sr.Name, i, x.SimTime, x.C.Draws(), x.nEvents, len(x.Violations))
+			}
 			res.Abandoned += out.Abandoned
 			res.Draws += uint64(x.C.Draws())
 			res.Events += uint64(x.nEvents)
@@ -722,14 +792,9 @@ outer:
 				fv := &FoundViolation{Violation: v, Scenario: sr.Name, Index: i, RunSeed: runSeed, Count: 1}
 				found[key] = fv
 				res.Violations = append(res.Violations, fv)
-				// minimise now, write replay
-				orig := x.C.Recorded()
-				min, mruns := minimise(t, sc, job, orig, v.Property, v.Fingerprint, 6000, 15*time.Second)
-				fv.MinRuns, fv.Choices, fv.OrigLen = mruns, min.Len(), orig.Len()
-				fv.ReplayPath = fmt.Sprintf("%s/%s-%s-%d-%d.json", job.ReplayDir, v.Property, sanitize(v.Fingerprint), job.Seed, i)
-				if err := writeReplay(t, sc, job, fv, min, orig.Len()); err != nil {
-					res.HarnessErrs = append(res.HarnessErrs, "write replay: "+err.Error())
-				}
+				// minimisation is a separate job (vrun picks one representative per fingerprint)
+				fv.Trace = x.C.Recorded()
+				fv.OrigLen = fv.Trace.Len()
 			}
 		}
 	}
